@@ -4,6 +4,19 @@ Every program of the families below is parsed by the legacy line parser (parser_
 parser (parser_version=2).  Oracle: accept/reject agree (an exception that is not a KconfigError is a disagreement by
 itself); on accept the structural dumps (mck/dump.py) are equal and the sdkconfig / header / JSON outputs are equal in
 the all-default configuration and in every single-option perturbation of it.
+
+String literals (family `strlit`): every literal built from an ordered sequence of content features -- the other kind of
+quote, an escaped quote of the own kind, an escaped backslash, an escaped quote of the other kind, `$(MACRO)`, `$(ENV)`,
+`${ENV}`, `$ENV`, a `#` -- of length <= 2 (quick) / 3 (thorough, a feature may occur twice), joined by `-` or by one blank,
+with / without a leading and a trailing blank, double- and single-quoted, is placed in every position that takes a string:
+inline prompt (+ `if`), `prompt` (+ `if`), choice prompt, `warning`, comment / menu / mainmenu title, `default` value
+(+ `if`), comparison operand in depends / prompt-if / if-entry / visible-if / select-if (right and left of the operator),
+two literals on one line (the second one carrying the escape or the reference), `set` / `set default` value, macro value,
+`rsource` path.  Where the documents say nothing a feature is not generated (references in prompts / titles, escapes and
+references in macro values, escapes and `$(..)` in paths, single quotes for menu / mainmenu titles and paths).  A violation
+of this family is named by the smallest literal that still shows the same failure class (`trigger`).
+
+Every parse runs under a CPU-time limit; a parser that does not return is reported like a non-KconfigError exception.
 """
 
 from __future__ import annotations
@@ -24,12 +37,18 @@ RULE = (
     "ordered pairs); (b) every expression of the expression alphabet (all symbol forms, all operators, precedence probes, depth<=2 "
     "quick / 3 thorough) in every expression position; (c) all structure shapes with <=3 (quick) / 4 (thorough) entries over "
     "{menu, if, choice, comment, config, menuconfig, (o)(r)source, macro}; (d) lexical variants of fixed programs; (e) a negative "
-    "family both parsers must reject; (f) every Kconfig fixture under test/. distinct_nontrivial = distinct (accept/reject, "
-    "structural dump) outcomes."
+    "family both parsers must reject; (f) every Kconfig fixture under test/; (g) string literals: {double, single quoted} x every "
+    "ordered sequence of <=2 (quick) / <=3 (thorough, repeats allowed) of {other quote kind, escaped own quote, escaped backslash, "
+    "escaped other quote, $(MACRO), $(ENV), ${ENV}, $ENV, #} (quick: 6 of the 9) x {joined by '-', by one blank} x {leading, "
+    "trailing blank} x 24 positions (prompts, titles, default values, comparison operands on either side, two literals on one "
+    "line, set values, macro value, rsource path); violations of (g) carry the minimal literal of the same position that shows "
+    "the same failure class. distinct_nontrivial = distinct (accept/reject, structural dump) outcomes."
 )
 ASSUMPTIONS = [
     "structural equality is judged on mck/dump.py's dump (node order, kinds, names, types, prompts, expr_str of every condition, help, parents, per-symbol properties)",
     "environment for $-expansion is fixed: MCKENV=envval is set, MCKUNSET is unset",
+    "string literals: backslash escapes and unescaped quotes of the other kind are part of the language in every string position (shipped fixtures and language.rst examples use them); macro / environment references only in values and expression operands; menu / mainmenu titles and source paths only double-quoted (language.rst)",
+    "a parse that uses more than 2 s (string-literal programs) / 20 s (others) of CPU time is reported as non-termination (typical parse: 1..300 ms)",
 ]
 
 I = "    "
@@ -553,9 +572,10 @@ def strlit_shapes(tier: str) -> List[Tuple[Tuple[str, ...], str, bool, bool]]:
     """(ordered feature sequence, joiner, leading blank, trailing blank) of every literal of the bounded family"""
     feats = QUICK_FEATURES if tier == "quick" else ALL_FEATURES
     maxn = 2 if tier == "quick" else 3
-    seqs: List[Tuple[str, ...]] = [()]
-    for n in range(1, maxn + 1):
-        seqs += list(itertools.permutations(feats, n))
+    # ordered sequences; a feature may occur twice (a-a, and a-b-a at length 3: e.g. two references enclosing the literal)
+    seqs: List[Tuple[str, ...]] = [()] + [(f,) for f in feats] + list(itertools.product(feats, repeat=2))
+    if maxn >= 3:
+        seqs += list(itertools.permutations(feats, 3)) + [(a, b, a) for a, b in itertools.permutations(feats, 2)]
     out = [(seq, "-", False, False) for seq in seqs]
     for seq in seqs:  # leading / trailing / both blanks
         if len(seq) <= (1 if tier == "quick" else 2):
@@ -614,12 +634,44 @@ class _ParseTimeout(BaseException):
     pass
 
 
+_armed = False
+
+
 def _on_alarm(signum, frame):
-    raise _ParseTimeout()
+    if _armed:
+        raise _ParseTimeout()
 
 
+# limits are CPU seconds of this process (ITIMER_VIRTUAL): machine load or a paused VM cannot produce a false "no termination"
 PARSE_TIMEOUT_S = 20.0         # a parse of these programs takes 1..300 ms
-PARSE_TIMEOUT_STRLIT_S = 2.0   # the string-literal programs are ~15 lines (parser 2: ~35 ms)
+PARSE_TIMEOUT_STRLIT_S = 2.0   # the string-literal programs are ~15 lines (parser 2: ~15 ms)
+
+
+def _guarded(fn, timeout: float):
+    """runs fn() under a CPU-time interval timer: ("ok", value) | ("timeout", None) | ("exc", exception).  The timer keeps firing
+    every 50 ms after the deadline because a single asynchronous exception can be swallowed (e.g. inside a __del__ / callback)."""
+    global _armed
+    signal.signal(signal.SIGVTALRM, _on_alarm)
+    result: Tuple[str, Any] = ("timeout", None)
+    try:
+        try:
+            _armed = True
+            signal.setitimer(signal.ITIMER_VIRTUAL, timeout, 0.05)
+            result = ("ok", fn())
+        except _ParseTimeout:
+            result = ("timeout", None)
+        except BaseException as e:  # noqa: BLE001
+            result = ("exc", e)
+    except _ParseTimeout:
+        result = ("timeout", None)
+    while True:
+        try:
+            _armed = False
+            signal.setitimer(signal.ITIMER_VIRTUAL, 0)
+            break
+        except _ParseTimeout:
+            result = ("timeout", None)
+    return result
 
 
 def parse_with(path: str, version: int, timeout: float = PARSE_TIMEOUT_S):
@@ -635,34 +687,34 @@ def parse_with(path: str, version: int, timeout: float = PARSE_TIMEOUT_S):
     cwd = os.getcwd()
     try:
         os.chdir(os.path.dirname(path))
-        signal.signal(signal.SIGALRM, _on_alarm)
-        try:
-            signal.setitimer(signal.ITIMER_REAL, timeout)
-            try:
-                k = kl.Kconfig(path, parser_version=version)
-            finally:
-                signal.setitimer(signal.ITIMER_REAL, 0)
-            k.report.reset()
-            return ("ok", k)
-        except _ParseTimeout:
+        how, val = _guarded(lambda: kl.Kconfig(path, parser_version=version), timeout)
+        if how == "timeout":
+            # confirm with twice the budget: a stalled machine (CPU time stolen from the VM is charged to the process) must
+            # not be reported as a parser that does not terminate
+            how, val = _guarded(lambda: kl.Kconfig(path, parser_version=version), 2 * timeout)
+        if how == "ok":
+            val.report.reset()
+            return ("ok", val)
+        if how == "timeout":
             # the parser did not return: reported like an exception that is not a KconfigError
-            return ("other_exception", f"NoTermination(>{timeout:g}s)")
-        except c.KconfigError as e:
+            return ("other_exception", f"NoTermination(>{timeout:g}s cpu)")
+        e = val
+        if isinstance(e, c.KconfigError):
             return ("kconfig_error", f"{type(e).__name__}")
-        except RecursionError as e:
-            return ("other_exception", f"RecursionError")
-        except Exception as e:  # noqa: BLE001
-            import traceback
+        if isinstance(e, RecursionError):
+            return ("other_exception", "RecursionError")
+        if not isinstance(e, Exception):
+            raise e
+        import traceback
 
-            tb = traceback.extract_tb(e.__traceback__)
-            site = "?"
-            for fr in reversed(tb):
-                if "/mck/" not in fr.filename:
-                    site = f"{os.path.basename(fr.filename)}:{fr.name}"
-                    break
-            return ("other_exception", f"{type(e).__name__}@{site}")
+        tb = traceback.extract_tb(e.__traceback__)
+        site = "?"
+        for fr in reversed(tb):
+            if "/mck/" not in fr.filename:
+                site = f"{os.path.basename(fr.filename)}:{fr.name}"
+                break
+        return ("other_exception", f"{type(e).__name__}@{site}")
     finally:
-        signal.setitimer(signal.ITIMER_REAL, 0)
         os.chdir(cwd)
         for k, v in old.items():
             if v is None:
@@ -708,13 +760,39 @@ def _first_classes(p: Dict[str, Any], timeout: float) -> Tuple[tuple, ...]:
 _CLASS_MEMO: Dict[str, Tuple[tuple, ...]] = {}
 
 
+def _strlit_has_class(pos: str, qn: str, shape: tuple, cls: tuple) -> Optional[tuple]:
+    """the normalised shape if that literal is generated at this position and shows failure class `cls`, else None"""
+    q = strlit_case(pos, qn, *shape)
+    if q is None:
+        return None
+    key = q["construct"]
+    if key not in _CLASS_MEMO:
+        if len(_CLASS_MEMO) > 20000:
+            _CLASS_MEMO.clear()
+        _CLASS_MEMO[key] = _first_classes(q, PARSE_TIMEOUT_STRLIT_S)
+    if cls not in _CLASS_MEMO[key]:
+        return None
+    d = q["strlit"]
+    return (tuple(d["seq"]), d["joiner"], d["lead"], d["trail"])
+
+
 def _strlit_trigger(p: Dict[str, Any], cls: Optional[tuple]) -> str:
-    """smallest literal (greedy: drop one feature / one blank at a time, left to right, while the SAME failure class remains) of
-    the same position and quote kind; names the triggering construct in the violation signature"""
+    """names the triggering construct in the violation signature: a smallest literal of the same position and quote kind that
+    shows the SAME failure class -- first every single component of the literal on its own (one feature; a leading / trailing
+    blank around the plain word), else greedy: drop one feature / one blank at a time, left to right, while the class remains"""
     d = p["strlit"]
+    pos, qn = d["pos"], d["q"]
     cur = (tuple(d["seq"]), d["joiner"], d["lead"], d["trail"])
     if cls is None:
         return strlit_label(*cur)
+    singles = [((f,), "-", False, False) for f in dict.fromkeys(cur[0])]
+    singles += [((), "-", True, False)] if cur[2] else []
+    singles += [((), "-", False, True)] if cur[3] else []
+    if len(cur[0]) + int(cur[2]) + int(cur[3]) > 1:
+        for cand in singles:
+            got = _strlit_has_class(pos, qn, cand, cls)
+            if got is not None:
+                return strlit_label(*got)
     progress = True
     while progress:
         progress = False
@@ -727,16 +805,9 @@ def _strlit_trigger(p: Dict[str, Any], cls: Optional[tuple]) -> str:
         if trail:
             cands.append((seq, joiner, lead, False))
         for cand in cands:
-            q = strlit_case(d["pos"], d["q"], *cand)
-            if q is None:
-                continue
-            key = q["construct"]
-            if key not in _CLASS_MEMO:
-                if len(_CLASS_MEMO) > 20000:
-                    _CLASS_MEMO.clear()
-                _CLASS_MEMO[key] = _first_classes(q, PARSE_TIMEOUT_STRLIT_S)
-            if cls in _CLASS_MEMO[key]:
-                cur = (tuple(q["strlit"]["seq"]), q["strlit"]["joiner"], q["strlit"]["lead"], q["strlit"]["trail"])
+            got = _strlit_has_class(pos, qn, cand, cls)
+            if got is not None:
+                cur = got
                 progress = True
                 break
     return strlit_label(*cur)
